@@ -3,6 +3,9 @@ import ColoVerif.Proofs.CheckedCores
 import ColoVerif.Proofs.CheckedTetris
 import ColoVerif.Proofs.CheckedIncrNet
 import ColoVerif.Proofs.CheckedFlow
+import ColoVerif.Proofs.CheckedDetPlaceRun
+import ColoVerif.Proofs.Transp1dSorter
+import ColoVerif.Proofs.CheckedTranspTree
 import ColoVerif.Model.LegacyChecked
 /-
 C07 — placement calls return or throw; never crash or invoke undefined behaviour.
@@ -344,5 +347,127 @@ theorem incrnet_overflow_beyond_domain :
     (Builder.mk 1 [0, 0] [] []).buildC [0] =
       .error (.intOverflow "computeValue: minMaxPos.second - minMaxPos.first") := by
   constructor <;> decide
+
+/-! ### DetailedPlacement (the data structure every detailed-placement move goes through) -/
+
+open ColoVerif.DetPlace ColoVerif.DetPlace.State in
+/-- **DetailedPlacement: no fault, one query or move.**  (src/place_detailed/detailed_placement.cpp.)
+In a state of the domain (`DomC`: optimised cells and row ends within ±2^22, widths ≥ 0, links that
+are −1 or an optimised cell) the feasibility tests (`siteEnd - siteBegin`, `e2 - b2`, `x + width`),
+the midpoint computations (`(boundaryBefore + boundaryAfter - width) / 2`,
+`(siteEnd - width + siteBegin) / 2`: three `int` operations each) and the moves `insert` / `swap`
+(with their `assert(isPlaced(c))`, assertions enabled or not, and every vector index) evaluate
+without fault, return what the unbounded model returns (a C++ `std::runtime_error` is a value, not
+a fault), and an accepted move leaves a state of the domain. -/
+theorem detplace_no_fault {s : DetPlace.State} (h : s.DomC) (asr : Bool) {c1 c2 r p : Int} (h1 : s.LiveC c1)
+    (h2 : s.LiveC c2) (vr : s.validRow r) (hp : s.LinkC p) :
+    s.canInsertC c1 r p = .ok (s.canInsert c1 r p) ∧
+    s.positionOnInsertC c1 r p = .ok (s.positionOnInsert c1 r p) ∧
+    s.insertC c1 r p = .ok (s.insert c1 r p) ∧
+    s.canSwapC asr c1 c2 = .ok (s.canSwap c1 c2) ∧
+    s.swapC asr c1 c2 = .ok (s.swap c1 c2) ∧
+    (s.row c1 ≠ -1 → s.row c2 ≠ -1 → s.positionsOnSwapC asr c1 c2 = .ok (s.positionsOnSwap c1 c2)) ∧
+    (∀ t, s.insert c1 r p = .ok t → t.DomC) ∧ (∀ t, s.swap c1 c2 = .ok t → t.DomC) :=
+  ⟨canInsertC_ok h h1 vr hp, positionOnInsertC_ok h h1 vr hp, insertC_ok h h1 vr hp, canSwapC_ok h asr h1 h2,
+   swapC_ok h asr h1 h2, fun r1 r2 => positionsOnSwapC_ok h asr h1 h2 r1 r2,
+   fun _ e => insert_DomC h h1 vr hp e, fun _ e => swap_DomC h h1 h2 e⟩
+
+open ColoVerif.DetPlace ColoVerif.DetPlace.State in
+/-- **DetailedPlacement: no fault along any history.**  From a state satisfying the structural
+invariant of `C02` with rows within ±2^22 and every optimised cell placed — in particular the state
+`fromIspdCircuit` builds for a legal circuit of the domain (`fromIspdCircuit_DomC`) — after *any*
+sequence of accepted swaps, inserts, shifts and reorderings (`State.run`), the queries and moves
+above still evaluate without fault.  (The arithmetic of the callers in place_detailed.cpp — shift
+and reordering searches — is outside the modelled core.) -/
+theorem detplace_history_no_fault {s t : DetPlace.State} (h : Inv s) (hr : RowsC s) (hap : Lg.AllPlaced s)
+    {ops : List DetPlace.Op} (e : s.run ops = .ok t) (asr : Bool) {c1 c2 r p : Int} (h1 : t.LiveC c1) (h2 : t.LiveC c2)
+    (vr : t.validRow r) (hp : t.LinkC p) :
+    t.canInsertC c1 r p = .ok (t.canInsert c1 r p) ∧
+    t.positionOnInsertC c1 r p = .ok (t.positionOnInsert c1 r p) ∧
+    t.insertC c1 r p = .ok (t.insert c1 r p) ∧
+    t.canSwapC asr c1 c2 = .ok (t.canSwap c1 c2) ∧
+    t.swapC asr c1 c2 = .ok (t.swap c1 c2) ∧
+    (t.row c1 ≠ -1 → t.row c2 ≠ -1 → t.positionsOnSwapC asr c1 c2 = .ok (t.positionsOnSwap c1 c2)) :=
+  run_no_fault h hr hap e asr h1 h2 vr hp
+
+open ColoVerif.DetPlace ColoVerif.DetPlace.State in
+/-- **Witnesses (beyond the domain).**  A predecessor at `x = INT_MAX` overflows
+`cellX(pred) + cellWidth(pred)`; rows `[-2·10^9, 2·10^9]` overflow `siteEnd - siteBegin`. -/
+theorem detplace_overflow_beyond_domain :
+    farState.siteBeginC 0 0 = .error (.intOverflow "siteBegin: cellX(pred) + cellWidth(pred)") ∧
+    wideState.canInsertC 0 1 (-1) =
+      .error (.intOverflow "canInsert: siteEnd(row, pred) - siteBegin(row, pred)") :=
+  ⟨siteBeginC_far, canInsertC_wide⟩
+
+/-! ### Transportation1d (the default rough-legalization transport) -/
+
+open ColoVerif.Transp1d in
+/-- **1-D transportation: no out-of-range access, termination.**  (src/place_global/transportation_1d.cpp,
+as called by `DensityLegalizer::improveXTransport/improveYTransport` after `balanceDemand`.)  The
+model of `Transportation1d::assign` returns `Err.indexOutOfRange` wherever the C++ would index a
+vector out of range (in particular `D[currentSink + 1]` in the rounding walk of
+`computeAssignment`, the loop a supply-1 source flush against the end of a full line of bins would
+overrun if the midpoint were rounded up) and `Err.outOfFuel` if the `while` loop of `push` did not
+terminate.  For every instance with as many supplies as sources, as many demands as sinks,
+non-negative supplies and demands and total supply ≤ total demand — zero and unit supplies
+included — neither happens, and there is one sink per source.  (Proved for `C14`; restated here
+because out-of-bounds accesses and non-termination are C07 events.  Signed overflow of the
+`long long` position / slope arithmetic of this solver is NOT covered: sanitizer-monitored.) -/
+theorem transp1d_no_fault (pb : Problem) (h1 : pb.s.length = pb.u.length) (h2 : pb.d.length = pb.v.length)
+    (h3 : ∀ x ∈ pb.s, 0 ≤ x) (h4 : ∀ x ∈ pb.d, 0 ≤ x) (h5 : pb.s.sum ≤ pb.d.sum) :
+    ∃ a, assign pb = .ok a ∧ a.length = pb.u.length := by
+  obtain ⟨a, e, hl, _⟩ := assign_total pb ((checkOk_iff pb).mpr ⟨h1, h2, h3, h4, h5⟩)
+  exact ⟨a, e, hl⟩
+
+open ColoVerif.Transp1d in
+/-- non-vacuity: two unit cells, the second one flush against the end of a full line of two bins -/
+example : assign ⟨[0, 10], [0, 10], [1, 1], [1, 1]⟩ = .ok [0, 1] := by decide
+
+/-! ### fixed-point costs of the general transportation solver -/
+
+/-- What `transp_costs_fit` should say in full: a checked twin `solveC` of the whole
+`TransportationSuccessiveShortestPath::run` (typed `int` cost arithmetic in `bestSink`, `updateTree`,
+`initQueues`, `updateDestQueues`; `long long` quantities) never faults and equals the unbounded
+`solve` for every problem that passes `check()`, has total demand ≤ total capacity and stored costs
+in `[0, INT_MAX / (4·nbSinks)]` (the range `costsFromIntegers` scales to).  `solveC` is not written;
+the statement is kept as the two facts it reduces to at every state of the run. -/
+def transp_costs_fit_full_statement : Prop :=
+  ∀ (p : Transp.Problem) (alloc : Transp.Mat) (qs : Transp.Queues) (rem : List Int) (d : Nat → Int) (C : Int),
+    Transp.Mid p alloc qs rem → Transp.Pot p alloc rem d → (∀ i, i < p.nbSinks → d i ≤ Transp.intMax) →
+    (∀ i j, i < p.nbSinks → j < p.nbSources → 0 ≤ p.cost i j ∧ p.cost i j ≤ C) → 0 ≤ C → 2 * C ≤ Transp.intMax →
+    (∀ i, i < p.nbSinks → 0 < p.capacity i) →
+    (∃ t, Transp.updateTreeC p qs rem = .ok t ∧ Transp.updateTree p qs rem = .ok t ∧
+      ((∃ f, f < p.nbSinks ∧ rem.getD f 0 > 0) → ∀ src, src < p.nbSources →
+        Transp.bestSinkC p t.sendCost src = .ok (Transp.bestSink p t.sendCost src)))
+
+open ColoVerif.Transp in
+/-- **Transportation fixed-point costs: the path sums fit (partial).**
+(src/place_global/transportation.cpp; `CostType = int`.)  At every state at which the solver calls
+`updateTree` — characterised by the invariants `Mid` / `Pot` that the C13 termination proof
+establishes there (`Proofs/TranspSsp2Main.lean`, `update_total`) — with stored costs in `[0, C]` and
+`2·C ≤ INT_MAX` (`costsFromIntegers` scales to `C ≤ INT_MAX/(4·nbSinks)`, so `2·C ≤ INT_MAX/2`):
+every `movingCost(i, bestVisit) + sendingCost_[bestVisit]` of the label-correcting search is a
+representable `int` although the labels start at `INT_MAX` (the selected label is always within
+`[0, C]`: `pickVisit` takes a minimum and a sink with free capacity has label 0), the checked
+`updateTree` returns the unbounded model's tree, and — while some sink has capacity left, i.e.
+whenever `bestSink` is called — every `sendingCost_[i] + cost(i, src)` fits as well.
+*Partial*: the reduction "these are the states of the run" is C13's, not re-proved through a checked
+twin of the whole `run`; the float side of `costsFromIntegers` (`std::round(cost * factor)` to
+`int`) is sanitizer-monitored only; the model is tied to the C++ by C13's correspondence stream. -/
+theorem transp_costs_fit_partial : transp_costs_fit_full_statement := by
+  intro p alloc qs rem d C hm hp hdle hC hC0 h2C hcap
+  obtain ⟨t, h1, h2, spec⟩ := updateTreeC_at_mid p alloc qs rem d hm hp hdle C hC h2C hC0 hcap
+  refine ⟨t, h1, h2, ?_⟩
+  intro hfree src hs
+  exact bestSinkC_ok p rem (wOf qs) d C C t spec hp.nn hC0 hfree src (fun i hi => hC i src hi hs)
+    (by have im : intMax = 2147483647 := rfl; omega)
+
+open ColoVerif.Transp in
+/-- **Witness (why the labels matter).**  `sendingCost_` is initialised to `INT_MAX`: adding a cost
+to such a label — which `bestSink` would do for an unreached sink, e.g. if it were called with no
+capacity left anywhere — overflows. -/
+theorem transp_sentinel_overflow :
+    bestSinkC ⟨[1], [1], [[1]], [[0]]⟩ [2147483647] 0 =
+      .error (.intOverflow "bestSink: sendingCost_[i] + pb_.cost(i, src)") := by decide
 
 end ColoVerif.C07
